@@ -171,5 +171,65 @@ impl Task {
             proof { assert(data@.take(data@.len() as int) =~= data@); }
 //@@ end
 }
+
+// ---- Task::inputs (C07 mechanism: "task inputs = previous task outputs + declared inputs")
+#[verifier::external_body]
+pub struct ProcY { _p: u8 }
+pub uninterp spec fn task_of(tid: Seq<char>) -> Option<Arc<TaskI>>;
+impl ProcY {
+    // process.rs: Process::task(tid)
+    #[verifier::external_body] pub fn task(&self, tid: &String) -> (r: Option<Arc<TaskI>>) ensures r == task_of(tid@) { unimplemented!() }
+}
+#[verifier::external_body]
+pub struct NodeContentI { _p: u8 }
+impl NodeContentI {
+    pub uninterp spec fn declared_inputs(&self) -> Vars;
+    #[verifier::external_body] pub fn inputs(&self) -> (r: Vars) ensures r == self.declared_inputs() { unimplemented!() }
+}
+pub struct NodeI { pub content: NodeContentI }
+pub struct TaskI { pub node: Arc<NodeI>, pub proc: Arc<ProcY> }
+// TRUSTED: utils::fill_inputs (templates evaluated, nested objects filled recursively, everything else as declared): a function of the declaration and the context
+pub uninterp spec fn filled_inputs(ctx: Context, declared: Vars) -> Vars;
+#[verifier::external_body]
+pub fn fill_inputs(inputs: &Vars, ctx: &Context) -> (r: Vars) ensures r == filled_inputs(*ctx, *inputs) { unimplemented!() }
+impl Vars {
+    // model/vars.rs: Vars::set / Vars::extend (ASSUMED map semantics: extend = union preferring the argument)
+    #[verifier::external_body]
+    pub fn set_val(&mut self, k: &String, v: JsonValue) ensures final(self)@ == old(self)@.insert(k@, v) { unimplemented!() }
+    #[verifier::external_body]
+    pub fn extend(self, other: Vars) -> (r: Vars) ensures r@ == self@.union_prefer_right(other@) { unimplemented!() }
+}
+impl TaskI {
+    pub uninterp spec fn s_ctx(&self) -> Context;
+    pub uninterp spec fn s_prev(&self) -> Option<String>;
+    pub uninterp spec fn s_outputs(&self) -> Vars;       // Task::outputs of that task (under contract above)
+    #[verifier::external_body] pub fn create_context(&self) -> (r: Context) ensures r == self.s_ctx() { unimplemented!() }
+    #[verifier::external_body] pub fn prev(&self) -> (r: Option<String>) ensures r == self.s_prev() { unimplemented!() }
+    #[verifier::external_body] pub fn outputs(&self) -> (r: Vars) ensures r == self.s_outputs() { unimplemented!() }
+    pub open spec fn handed_on(&self) -> Map<Key, JsonValue> {
+        if self.s_prev() is Some && task_of(self.s_prev()->Some_0@) is Some { task_of(self.s_prev()->Some_0@)->Some_0.s_outputs()@ } else { Map::empty() }
+    }
+//@@ extract file=acts/src/scheduler/process/task.rs in="impl Task" item="fn inputs" name=Task::inputs
+//@@ opt attr="#[verifier::loop_isolation(false)]"
+//@@ rw R7 `self : & Arc < Self >` => `&self`
+//@@ rw R12 `for ( ref k , v ) in & prev_task . outputs ( ) $B:block` => `for (k, v) in prev_task.outputs().entries().iter() $B`
+//@@ rw R7 `vars . set ( k , v . clone ( ) )` => `vars.set_val(k, v.clone())`
+//@@ rw R7 `utils :: fill_inputs` => `fill_inputs`
+//@@ spec
+    ensures
+        //# V10-the-inputs-of-a-task-are-the-outputs-of-the-task-before-it-overlaid-with-its-own-declared-inputs
+        ret@ == self.handed_on().union_prefer_right(filled_inputs(self.s_ctx(), self.node.content.declared_inputs())@),
+//@@ loop 1
+        invariant
+            //# handed-on-so-far
+            self.s_prev() is Some && task_of(self.s_prev()->Some_0@) == Some(prev_task)
+                && (forall|i: int| 0 <= i < __v1@.len() ==> prev_task.s_outputs()@.dom().contains((#[trigger] __v1@[i]).0@) && prev_task.s_outputs()@[__v1@[i].0@] == __v1@[i].1)
+                && (forall|k: Key| prev_task.s_outputs()@.dom().contains(k) ==> exists|i: int| 0 <= i < __v1@.len() && (#[trigger] __v1@[i]).0@ == k)
+                && (forall|k: Key| #[trigger] vars@.dom().contains(k) <==> exists|i: int| 0 <= i < __i1 && (#[trigger] __v1@[i]).0@ == k)
+                && (forall|i: int| 0 <= i < __i1 ==> vars@[(#[trigger] __v1@[i]).0@] == __v1@[i].1),
+//@@ proof at=afterloop1
+                proof { assert(vars@ =~= prev_task.s_outputs()@); }
+//@@ end
+}
 } // verus!
 fn main() {}
